@@ -501,6 +501,297 @@ def gen_unit(rng, depth=2):
             [gen_pred(rng, depth) for _ in range(rng.randint(0, 2))], [gen_stmt(rng, depth) for _ in range(rng.randint(0, 4))])
 
 
+OP_TEXT = {"or": "|", "and": "&", "xor": "^", "add": "+", "sub": "-", "mul": "*", "div": "/", "eq": "==", "neq": "!=", "lt": "<",
+           "leq": "<=", "geq": ">=", "gt": ">", "impl": "->", "plus": "+", "minus": "-", "not": "!"}
+LEAVES = ("id", "int", "real", "bool", "str")
+
+
+def render_paren(rng, e, leaf_style=None):
+    """The text of an expression tree written with REDUNDANT parentheses, independently of the model's printer: every leaf
+    (identifier, qualified identifier, literal) may be written `x`, `(x)` or `((x))`; a compound operand of an operator is always
+    parenthesised, a unary operand of a binary / n-ary operator may be written bare (`(a) - -b`). By the grammar, parentheses
+    around an operand change nothing, so the text denotes exactly the tree `e`. leaf_style: None = random, or 0 / 1 / 2 parentheses
+    around every identifier, or 'first' = only the first identifier is parenthesised (`(a) - -b`)."""
+    seen = []
+
+    def leaf(x):
+        k = x[0]
+        if k == "id":
+            t = ".".join(x[1])
+        elif k == "int":
+            t = x[1]
+        elif k == "real":
+            t = "%s.%s" % (x[1], x[2])
+        elif k == "bool":
+            t = "true" if x[1] else "false"
+        else:
+            raise ValueError(k)
+        if k != "id":
+            n = rng.choice([0, 0, 1])
+        elif leaf_style == "first":
+            n = 1 if not seen else 0
+        elif leaf_style is not None:
+            n = leaf_style
+        else:
+            n = rng.choice([0, 1, 1, 1, 2])
+        if k == "id":
+            seen.append(t)
+        return "( " * n + t + " )" * n
+
+    def operand(x, allow_bare_unary):
+        k = x[0]
+        if k in LEAVES:
+            return leaf(x)
+        if k in UN and allow_bare_unary and rng.random() < 0.7:
+            return go(x)
+        return "( " + go(x) + " )"
+
+    def go(x):
+        k = x[0]
+        if k in LEAVES:
+            return leaf(x)
+        if k in UN:
+            return OP_TEXT[k] + " " + operand(x[1], rng.random() < 0.3)
+        if k == "cast":
+            y = x[2]
+            return "( " + ".".join(x[1]) + " ) " + (leaf(y) if y[0] in ("id", "int", "real", "bool") and rng.random() < 0.5 else "( " + go(y) + " )")
+        if k in BIN:
+            return operand(x[1], True) + " " + OP_TEXT[k] + " " + operand(x[2], True)
+        if k in NARY:
+            return (" " + OP_TEXT[k] + " ").join(operand(y, True) for y in x[1])
+        raise ValueError(k)
+    return go(e)
+
+
+def gen_paren_id_trees(rng, n_random):
+    """the class `parenthesised single identifiers / qualified identifiers as operands of every binary operator, followed by every
+    unary operator`: (tree, leaf_style) pairs; the text is render_paren(tree)."""
+    a, b, c, ab = ("id", ["a"]), ("id", ["b"]), ("id", ["c"]), ("id", ["a", "b"])
+    out = []
+    for op in NARY + BIN:
+        mk = (lambda x, y, op=op: (op, [x, y])) if op in NARY else (lambda x, y, op=op: (op, x, y))
+        for st in ("first", 1, 2, None):
+            out.append((mk(a, b), st))                       # (a) - b      ((a)) - b
+            out.append((mk(ab, c), st))                      # (a.b) + c
+            for u in UN:
+                out.append((mk(a, (u, b)), st))              # (a) - -b     (a) - !b
+                out.append((mk((u, a), b), st))              # -(a) - b
+                out.append((mk(a, (u, (u, b))), st))         # (a) - - -b
+            out.append((mk(a, ("int", "1")), st))            # (a) - 1
+            out.append((mk(("int", "1"), a), st))
+            if op in NARY:
+                out.append(((op, [a, b, c]), st))            # (a) - (b) - c
+                out.append(((op, [(op, [a, b]), c]), st))    # ((a) - b) - c
+                out.append(((op, [a, (op, [b, c])]), st))    # (a) - ((b) - c)
+            for op2 in ("sub", "add", "mul", "lt", "and"):
+                inner = (op2, [b, c]) if op2 in NARY else (op2, b, c)
+                out.append((mk(a, inner), st))               # (a) - ((b) * c)
+                out.append((mk(inner, a), st))
+
+    def tree(d):
+        if d <= 0 or rng.random() < 0.3:
+            r = rng.random()
+            if r < 0.75:
+                return ("id", [gen_ident(rng)] if rng.random() < 0.7 else gen_qid(rng, 3))
+            return ("int", str(rng.randint(0, 99)))
+        r = rng.random()
+        if r < 0.45:
+            return (rng.choice(NARY), [tree(d - 1) for _ in range(rng.choice([2, 2, 3]))])
+        if r < 0.75:
+            return (rng.choice(BIN), tree(d - 1), tree(d - 1))
+        return (rng.choice(UN), tree(d - 1))
+    for _ in range(n_random):
+        out.append((tree(rng.choice([1, 2, 2, 3])), None))
+    return out
+
+
+def qualify_ids(e, names, root="o"):
+    """the tree with every identifier in `names` written `root.name`"""
+    k = e[0]
+    if k == "id":
+        return ("id", [root] + e[1]) if len(e[1]) == 1 and e[1][0] in names else e
+    if k in ("int", "real", "bool", "str"):
+        return e
+    if k in UN:
+        return (k, qualify_ids(e[1], names, root))
+    if k == "cast":
+        return (k, e[1], qualify_ids(e[2], names, root))
+    if k in BIN:
+        return (k, qualify_ids(e[1], names, root), qualify_ids(e[2], names, root))
+    if k in NARY:
+        return (k, [qualify_ids(x, names, root) for x in e[1]])
+    return e
+
+
+# ---- reading the S-expressions the harness / the oracle print for expressions ----
+def read_sx(s):
+    toks = s.replace("(", " ( ").replace(")", " ) ").split()
+    pos = [0]
+
+    def rd():
+        t = toks[pos[0]]
+        pos[0] += 1
+        if t == "(":
+            out = []
+            while toks[pos[0]] != ")":
+                out.append(rd())
+            pos[0] += 1
+            return out
+        return t
+    return rd()
+
+
+def expr_of_sx(n):
+    """nested lists (read_sx) -> expression tuple in the generator's format; ValueError for what cannot be evaluated"""
+    k = n[0]
+    if k == "id":
+        return ("id", list(n[1:]))
+    if k == "int":
+        return ("int", n[1])
+    if k == "real":
+        ip, dp = n[1].split(".")
+        return ("real", ip, dp)
+    if k == "bool":
+        return ("bool", n[1] == "1")
+    if k in UN:
+        return (k, expr_of_sx(n[1]))
+    if k == "cast":
+        return ("cast", list(n[1][1:]), expr_of_sx(n[2]))
+    if k in BIN:
+        return (k, expr_of_sx(n[1]), expr_of_sx(n[2]))
+    if k in NARY:
+        return (k, [expr_of_sx(x) for x in n[1:]])
+    raise ValueError(k)
+
+
+def infer_types(e):
+    """-> ({dotted name: 'a'|'b'}, 'a'|'b' of the whole expression) or None when the tree cannot be typed"""
+    ty = {}
+
+    def need(x, t):
+        """type x with expected type t (None = unknown); returns its type or raises"""
+        k = x[0]
+        if k == "id":
+            n = ".".join(x[1])
+            if t is None:
+                return ty.get(n)
+            if ty.setdefault(n, t) != t:
+                raise TypeError(n)
+            return t
+        if k in ("int", "real"):
+            r = "a"
+        elif k == "bool":
+            r = "b"
+        elif k in ("plus", "minus"):
+            need(x[1], "a")
+            r = "a"
+        elif k == "not":
+            need(x[1], "b")
+            r = "b"
+        elif k == "cast":
+            return need(x[2], t)
+        elif k in ("add", "sub", "mul", "div"):
+            for y in x[1]:
+                need(y, "a")
+            r = "a"
+        elif k in ("or", "and", "xor"):
+            for y in x[1]:
+                need(y, "b")
+            r = "b"
+        elif k == "impl":
+            need(x[1], "b")
+            need(x[2], "b")
+            r = "b"
+        elif k in ("lt", "leq", "geq", "gt"):
+            need(x[1], "a")
+            need(x[2], "a")
+            r = "b"
+        elif k in ("eq", "neq"):
+            t1 = need(x[1], None) or need(x[2], None) or "a"
+            need(x[1], t1)
+            need(x[2], t1)
+            r = "b"
+        else:
+            raise TypeError(k)
+        if t is not None and r != t:
+            raise TypeError(k)
+        return r
+    try:
+        r = need(e, None)
+        if r is None:
+            r = "a"
+            need(e, r)
+        # an object and a value of the same name (`a` and `a.b`) cannot be declared together
+        for n in ty:
+            parts = n.split(".")
+            if len(parts) > 2 or any(".".join(parts[:i]) in ty for i in range(1, len(parts))):
+                return None
+        return ty, r
+    except (TypeError, ValueError, IndexError):
+        return None
+
+
+def infer_types_check(ty):
+    """False when the names cannot be declared together (an object and a value of the same name, nesting deeper than o.f)"""
+    for n in ty:
+        parts = n.split(".")
+        if len(parts) > 2 or any(".".join(parts[:i]) in ty for i in range(1, len(parts))):
+            return False
+    return True
+
+
+def bind_program(ty, vals, kind, text):
+    """A program that binds the identifiers to constants and the probe (`v` / `q`) to the expression text.
+    ty: dotted name -> 'a'|'b'; vals: dotted name -> Fraction | bool. Returns (program text, probe, env spec for the oracle)."""
+    def lit(v):
+        return "%s%d / %d" % ("- " if v < 0 else "", abs(v.numerator), v.denominator)
+    objs, lines, env = {}, [], []
+    for n in sorted(ty):
+        parts = n.split(".")
+        if len(parts) == 2:
+            objs.setdefault(parts[0], []).append((parts[1], n))
+        elif ty[n] == "a":
+            lines.append("real %s = %s;" % (n, lit(vals[n])))
+        else:
+            lines.append("bool %s = %s;" % (n, "true" if vals[n] else "false"))
+        env.append("%s:c:0:%d/%d" % (n, vals[n].numerator, vals[n].denominator) if ty[n] == "a" else "%s:k:0:%d" % (n, 1 if vals[n] else 0))
+    for o in sorted(objs):
+        fs = " ".join(("real %s = %s;" % (f, lit(vals[n]))) if ty[n] == "a" else ("bool %s = %s;" % (f, "true" if vals[n] else "false")) for f, n in objs[o])
+        lines.append("class C_%s { %s } C_%s %s = new C_%s();" % (o, fs, o, o, o))
+    probe = "zzv" if kind == "a" else "zzq"
+    while probe in ty or any(n.split(".")[0] == probe for n in ty):
+        probe += "z"
+    lines.append(("real %s; %s == %s;" % (probe, probe, text)) if kind == "a" else ("bool %s; %s == ( %s );" % (probe, probe, text)))
+    return " ".join(lines), probe, ",".join(env)
+
+
+def expr_windows(text: bytes, max_tokens=400, max_windows=4000):
+    """candidate sub-texts of a program that may be whole expressions: from the start of the text or just after one of
+    `; { } = [ , ( :` up to just before one of `; ] , )` or the end; shortest first"""
+    ends = token_boundaries(text)
+    if not ends or len(ends) > max_tokens:
+        return []
+    starts = [0] + ends[:-1]
+    toks = [text[a:b].strip() for a, b in zip(starts, ends)]
+    begin = [i for i in range(len(toks)) if i == 0 or toks[i - 1] in (b";", b"{", b"}", b"=", b"[", b",", b"(", b":")]
+    stop = [j for j in range(1, len(toks) + 1) if j == len(toks) or toks[j] in (b";", b"]", b",", b")")]
+    ws = []
+    for i in begin:
+        for j in stop:
+            if j - i >= 3:
+                ws.append((j - i, i, j))
+    ws.sort()
+    seen, out = set(), []
+    for _, i, j in ws[:max_windows * 2]:
+        w = b" ".join(toks[i:j])
+        if w not in seen:
+            seen.add(w)
+            out.append(w)
+        if len(out) >= max_windows:
+            break
+    return out
+
+
 def gen_mixed_disj(rng, depth, in_method=False):
     """a disjunction in which some disjuncts carry a cost and others do not: `{..} [2] or {..} or {..} [3]`
     (every disjunct owns its own cost or none; all patterns of 2..5 disjuncts that are neither all-cost nor no-cost)"""
